@@ -119,17 +119,54 @@ pub fn current() -> Option<Arc<dyn Hooks>> {
     CURRENT.try_with(|current| current.borrow().clone()).ok().flatten()
 }
 
+thread_local! {
+    static ANNOUNCED: std::cell::Cell<bool> = const { std::cell::Cell::new(false) };
+}
+
+/**
+The mutex guarding the channel state.
+
+Each acquisition is announced to the simulator by a [`before_lock`] call that names the site. An acquisition that isn't announced (one added since the sites were instrumented) is a scheduling point all the same, under the name `unannounced_lock`, so that no critical section boundary is invisible to the simulator.
+*/
+pub struct TrackedMutex<T>(std::sync::Mutex<T>);
+
+impl<T> TrackedMutex<T> {
+    pub fn new(value: T) -> Self {
+        TrackedMutex(std::sync::Mutex::new(value))
+    }
+
+    pub fn lock(&self) -> std::sync::LockResult<std::sync::MutexGuard<'_, T>> {
+        if !ANNOUNCED.with(|announced| announced.replace(false)) {
+            if let Some(hooks) = current() {
+                hooks.before_lock("unannounced_lock");
+
+                if let Err(TryLockError::WouldBlock) = self.0.try_lock() {
+                    hooks.lock_contended("unannounced_lock");
+                }
+            }
+        }
+
+        self.0.lock()
+    }
+
+    pub fn try_lock(&self) -> std::sync::TryLockResult<std::sync::MutexGuard<'_, T>> {
+        self.0.try_lock()
+    }
+}
+
 /**
 A scheduling point immediately before `mutex` is locked.
 */
-pub(crate) fn before_lock<T>(mutex: &std::sync::Mutex<T>, site: &'static str) {
+pub(crate) fn before_lock<T>(mutex: &TrackedMutex<T>, site: &'static str) {
     if let Some(hooks) = current() {
         hooks.before_lock(site);
 
-        if let Err(TryLockError::WouldBlock) = mutex.try_lock() {
+        if let Err(TryLockError::WouldBlock) = mutex.0.try_lock() {
             hooks.lock_contended(site);
         }
     }
+
+    ANNOUNCED.with(|announced| announced.set(true));
 }
 
 /**
@@ -156,7 +193,7 @@ impl<T: crate::Channel> crate::Sender<T> {
             }
         }
 
-        let state = self.shared.state.lock().unwrap();
+        let state = self.shared.state.0.lock().unwrap();
 
         Snapshot {
             pending: state.next_batch.channel.len(),
